@@ -129,6 +129,68 @@ Proof.
   unfold setkey_p. now rewrite Hsig.
 Qed.
 
+(* ---- (4) the roll-over inside the connected-event callback ---------------------- *)
+
+Lemma final_ops_app w c h1 h2 : final_ops_w w c (h1 ++ h2) = final_ops_w w (final_ops_w w c h1) h2.
+Proof. unfold final_ops_w. apply fold_left_app. Qed.
+
+Lemma update_j w c j p n :
+  wf_ctrl c -> nth_error c j = Some p ->
+  nth_error (fst (fst (apply_w w c (OUpdate (p_id p) n)))) j = Some (update_p n p).
+Proof.
+  intros Hwf Hn. cbn [apply_w fst]. now rewrite (upd_j _ _ _ _ _ Hwf Hn), beq_bytes_refl.
+Qed.
+
+(* In EVERY state the roll-over passes through - request in flight, request failed, request
+   completed - an advertisement of the old epoch (sealed under a key other than the new one,
+   counter <= the accessory's last number g) is ignored. *)
+Lemma rollover_event_safe w c j p g s0 k' hdr k m a pt :
+  wf_ctrl c -> nth_error c j = Some p -> p_sig p = true -> p_sn p = Some s0 ->
+  rolls g = true -> m <= g -> k <> k' ->
+  let i := p_id p in
+  let ignored c2 := nth_error (fst (fst (detect_w w c2 (hdr, PSeal k m a pt)))) j = nth_error c2 j /\
+                    calls_for i (snd (detect_w w c2 (hdr, PSeal k m a pt))) = [] in
+  ignored (final_ops_w w c (event_begin i g)) /\
+  ignored (final_ops_w w c (event_begin i g ++ event_end i g ReqFail)) /\
+  ignored (final_ops_w w c (event_begin i g ++ event_end i g (ReqOk k'))).
+Proof.
+  intros Hwf Hn Hsig Hs Hr Hm Hk i ignored. unfold event_begin, event_end. rewrite Hr.
+  rewrite app_nil_r.
+  set (c1 := final_ops_w w c [OUpdate i g]).
+  assert (Hn1 : nth_error c1 j = Some (update_p g p)) by (apply update_j; assumption).
+  assert (Hwf1 : wf_ctrl c1) by (apply (final_ops_wf w c [OUpdate i g]); assumption).
+  assert (Hu : update_p g p = with_psn (with_sn p g) (Some g)) by (unfold update_p; now rewrite Hs).
+  assert (I1 : ignored c1).
+  { unfold ignored. destruct (detect_w w c1 (hdr, PSeal k m a pt)) as [[c2 o2] cl2] eqn:Hd. cbn [fst snd].
+    destruct (detect_ignored_j w _ _ _ _ _ _ _ _ Hwf1 Hd Hn1) as (H1 & H2).
+    - intros _ n pt'. apply (not_fresh_old w _ _ k m a pt n pt' g); [rewrite Hu; reflexivity|assumption].
+    - rewrite H1, Hn1. split; [reflexivity|]. rewrite Hu in H2. exact H2. }
+  split; [exact I1|]. split; [exact I1|].
+  change (final_ops_w w c ([OUpdate i g] ++ [OSetKey i k'; OUpdate i 1]))
+    with (final_ops_w w c ([OUpdate i g] ++ [OSetKey i k'; OUpdate i 1])).
+  rewrite final_ops_app. fold c1.
+  set (c2 := fst (fst (apply_w w c1 (OSetKey i k')))).
+  assert (Hid1 : p_id (update_p g p) = i) by (rewrite Hu; reflexivity).
+  assert (Hn2 : nth_error c2 j = Some (with_key (update_p g p) k')).
+  { unfold c2. rewrite <- Hid1. apply setkey_j; [assumption|assumption|]. rewrite Hu. exact Hsig. }
+  assert (Hwf2 : wf_ctrl c2) by (apply apply_wf; assumption).
+  set (q := with_key (update_p g p) k') in *.
+  assert (Hidq : p_id q = i) by (unfold q; rewrite Hu; reflexivity).
+  set (c3 := final_ops_w w c1 [OSetKey i k'; OUpdate i 1]).
+  assert (Hn3 : nth_error c3 j = Some (update_p 1 q)).
+  { unfold c3. change (final_ops_w w c1 [OSetKey i k'; OUpdate i 1]) with (fst (fst (apply_w w c2 (OUpdate i 1)))).
+    rewrite <- Hidq. apply update_j; assumption. }
+  assert (Hwf3 : wf_ctrl c3) by (apply (final_ops_wf w c1 [OSetKey i k'; OUpdate i 1]); assumption).
+  assert (Hkey : p_key (update_p 1 q) = Some k').
+  { unfold update_p. destruct (p_sn q); reflexivity. }
+  assert (Hid3 : p_id (update_p 1 q) = i).
+  { unfold update_p. destruct (p_sn q); exact Hidq. }
+  unfold ignored. destruct (detect_w w c3 (hdr, PSeal k m a pt)) as [[c4 o4] cl4] eqn:Hd. cbn [fst snd].
+  destruct (detect_ignored_j w _ _ _ _ _ _ _ _ Hwf3 Hd Hn3) as (H1 & H2).
+  - intros _ n pt'. apply not_fresh_wrong_key. rewrite Hkey. congruence.
+  - rewrite H1, Hn3. split; [reflexivity|]. now rewrite Hid3 in H2.
+Qed.
+
 (* ---- examples --------------------------------------------------------------------- *)
 Definition rx_id : bytes := [1;2;3;4;5;6].
 Definition rx_p (s : N) : pairing := mkP rx_id (Some 7) (Some s) (Some s) [(11, FU8)] true.
@@ -171,4 +233,16 @@ Lemma undelivered_example :
   (o1, cl1, map p_sn c1, falls_back o1) = (OUndelivered CkNoChar, [], [Some 11], true) /\
   (o2, cl2, map p_sn c2) = (OStale, [], [Some 11]) /\
   (o3, cl3, map p_sn c3, falls_back o3) = (OUndelivered CkStruct, [], [Some 12], false).
+Proof. vm_compute. repeat split. Qed.
+
+(* OBSERVATION: the two effects in the other order (number first, key second): while the key
+   request is in flight - or for good when it fails - the previous epoch is accepted again *)
+Lemma rollover_number_before_key_replay :
+  let wrong_begin := [OUpdate rx_id 65534; OUpdate rx_id 1] in
+  let c1 := final_ops [rx_p 65533] wrong_begin in
+  let '(c2, o2, cl2) := apply c1 (OAdv (rx_seal 7 5)) in
+  let right := final_ops [rx_p 65533] (event_begin rx_id 65534) in
+  let '(c3, o3, cl3) := apply right (OAdv (rx_seal 7 5)) in
+  (o2, cl2, map p_sn c2) = (OAccepted, [(rx_id, 1, 11, VInt 42)], [Some 5]) /\
+  (o3, cl3, map p_sn c3) = (ONoDecrypt, [], [Some 65534]).
 Proof. vm_compute. repeat split. Qed.
